@@ -528,6 +528,17 @@ package hclsyntax
 // (unless a diagnostic is reported).
 // verif:func (*FunctionCallExpr).Value
 //@ nosafety
+//@ props C06,C17
+// (C17) evaluation does not write the call's argument list in the shared syntax tree: the expanded
+// arguments of f(xs...) go into a list of their own.
+//@ ensures argsSame: len(e.Args) == old(len(e.Args)) && (forall j int :: { e.Args[j] } 0 <= j && j < len(e.Args) ==> e.Args[j] == old(e.Args[j]))
+//@ loopall invariant argsSame: len(e.Args) == old(len(e.Args)) && (forall j int :: { e.Args[j] } 0 <= j && j < len(e.Args) ==> e.Args[j] == old(e.Args[j]))
+//@ loop 4 invariant fresh(newArgs)
+//@ loop 4 invariant !fresh(e.Args)
+// (the argument list existed before the call: trivially true for any caller, stated because the
+// engine does not derive the age of a slice loaded from the heap)
+//@ requires argsOld: existed(org(e.Args))
+//@ loopall invariant e.Args == old(e.Args)
 //@ ensures expand: old(e.ExpandFinal) && old(len(e.Args)) >= 1 && !isKnownVal(exprVal(old(e.Args[len(e.Args) - 1]), ctx)) ==> len(ret1) > 0 || (forall k iface :: { marked(ret0, k) } marked(exprVal(old(e.Args[len(e.Args) - 1]), ctx), k) ==> marked(ret0, k))
 
 // ---- the range of an attribute-only splat (unit U11d, C14) ----
